@@ -54,6 +54,7 @@ type Prediction struct {
 	Diverge     bool         `json:"diverge"`
 	Dup         bool         `json:"dup"`
 	Crash       bool         `json:"crash"`
+	BadQual     bool         `json:"badQual"` // a path-derived alias that is no usable identifier (keyword, digit first, predeclared)
 	NameDup     bool         `json:"nameDup"`
 	Late        bool         `json:"late"`
 	NFinals     int          `json:"nfinals"`
